@@ -1474,6 +1474,12 @@ class Interp:
         if isinstance(f, ClassRef):
             return self.construct(f.name, args)
         if isinstance(f, Opaque):
+            if f.kind == "builtin":
+                return self.builtin(f.payload[0], list(args), {}, n, {})
+            if f.kind == "npfunc":
+                return self.npfunc(f.payload[0], list(args), {}, n)
+            if f.kind == "closure":
+                return self.ev_Call(ast.Call(func=_Lit(f), args=[_Lit(a) for a in args], keywords=[], lineno=getattr(n, "lineno", 0)), {})
             if f.kind == "bound":
                 return self.call_method(f.payload[0], f.payload[1], args)
             if f.kind == "clsmeth":
@@ -1846,6 +1852,18 @@ class Interp:
             raise PathRaise("StopIteration", self.where(n))
         if name == "iter":
             return self.iterate(args[0], n)
+        if name == "map":
+            seqs = [self.iterate(a, n) for a in args[1:]]
+            return [self.call_value(args[0], list(xs), n) for xs in zip(*seqs)]
+        if name == "filter":
+            return [x for x in self.iterate(args[1], n) if (self.truth(self.call_value(args[0], [x], n), n) if args[0] is not None else self.truth(x, n))]
+        if name == "sorted":
+            seq = self.iterate(args[0], n)
+            if all(isinstance(x, Poly) and x.const_value() is not None for x in seq):
+                return sorted(seq, key=lambda x: Fraction(x.const_value()))
+            if all(isinstance(x, str) for x in seq):
+                return sorted(seq)
+            raise self.unsupported("sorted() of symbolic values", n)
         if name == "id":
             return Poly.var("pyid#%d" % id(args[0]))
         if name == "abs":
@@ -2444,7 +2462,7 @@ def _dotp(r, c):
 
 OPNAME = {ast.Lt: "<", ast.LtE: "<=", ast.Gt: ">", ast.GtE: ">=", ast.Eq: "==", ast.NotEq: "!="}
 ARR_METHODS = {"squeeze", "conj", "conjugate", "all", "item", "max", "min", "fill", "tocsr", "tocsc", "tolil", "todense", "toarray", "tocoo", "any", "view", "copy", "dot", "transpose", "flatten", "ravel", "tolist", "astype", "reshape", "sum", "round"}
-BUILTIN_NAMES = {"getattr", "hasattr", "setattr", "next", "iter", "id", "abs", "bool", "open", "str", "repr", "set", "frozenset", "dict", "isinstance", "issubclass", "type", "len", "range", "zip", "enumerate", "reversed", "list", "tuple",
+BUILTIN_NAMES = {"map", "filter", "sorted", "getattr", "hasattr", "setattr", "next", "iter", "id", "abs", "bool", "open", "str", "repr", "set", "frozenset", "dict", "isinstance", "issubclass", "type", "len", "range", "zip", "enumerate", "reversed", "list", "tuple",
                  "all", "any", "sum", "max", "min", "super", "print", "round", "int", "abs", "NotImplementedError"}
 
 
